@@ -216,6 +216,8 @@ def check_C05(tier):
     # sink has results to hand over while the branch of the leaf driver is still being fed
     paced = {"mk:%d.sleep" % i: "%.2f" % (0.05 * i) for i in range(1, 11)}
     extras = [("Z5c", dict(n=3, m=1), dict(ctl={"a.sleep": "0.2"})), ("Z5c", dict(n=4, m=0, buf=2), dict(ctl={"a.sleep": "0.15"})),
+              # the same with a port-less leaf as the driver of Run (the sink is not the last to finish): the abandoned upstream must still be waited for
+              ("Z5cL", dict(n=3, m=1), dict(ctl={"a.sleep": "0.25"})), ("Z5cL", dict(n=4, m=1, buf=2), dict(ctl={"a.sleep": "0.3"})),
               ("Z18", dict(n=10, buf=1, mx=16), dict(ctl=paced)), ("Z18", dict(n=8, buf=2, mx=16), dict(ctl=paced)),
               ("Z19", dict(n=3), dict(ctl={"a.sleep": "0.1", "b.sleep": "0.1"})), ("Z19", dict(n=4, buf=2)),
               ("Z1", dict(n=3), dict(ctl={"a.extra": "side.log sub/dir/side2.log"})),
